@@ -185,7 +185,20 @@ def grep_audit():
     return hits
 
 
+# properties whose theorems live in more than one module
+PROP_MODULES = {"C01": ["C01", "C01Congr"], "C03": ["C03", "C03Cont"]}
+
+
 def axiom_audit(prop, theorems=None):
+    res, problems = {}, []
+    for m in PROP_MODULES.get(prop, [prop]):
+        r, p = axiom_audit1(m)
+        res.update(r)
+        problems += p
+    return res, problems
+
+
+def axiom_audit1(prop, theorems=None):
     """Enumerates, inside Lean, every theorem declared in module Robust.Props.<prop> (any
     namespace nesting, private ones included) and collects the axioms each depends on.
     Returns (dict name->axioms, problems)."""
@@ -348,7 +361,7 @@ class Run:
         self.obligation("extract: regenerate Robust/Gen from /repo", ok, out)
         if facts.get("loadErrors"):
             self.obligation("extract: /repo type-checks", False, "\n".join(facts["loadErrors"][:10]))
-        mods = ["Robust.Props." + self.prop] + list(extra_modules)
+        mods = ["Robust.Props." + m for m in PROP_MODULES.get(self.prop, [self.prop])] + list(extra_modules)
         okb, outb = lake_build(mods + ["driver"])
         self.build_log = outb
         if okb:
